@@ -58,6 +58,15 @@ class C19(Prop):
             cols = [[rng.randint(0, 40) / 4 for _ in range(n)]]
             yield {"stream": "murphy", "y": y, "cols": cols, "f": rng.choice(["mean", "quantile"]), "level": 0.25, "w": None,
                    "etas": etas if etas == 100 else [k * 10 / etas for k in range(etas + 1)]}
+        # the backend / axes block: ax=None (pyplot's current axes), an Axes that is / is not current, something else;
+        # also with an invalid further argument (nothing may be drawn then)
+        for k in range(36 if tier == "quick" else 240):
+            n = rng.randint(2, 8)
+            yield {"stream": "axes", "fn": ["reliability", "murphy", "bias"][k % 3], "ax": ["none", "given", "current", "junk"][(k // 3) % 4],
+                   "args_ok": (k // 12) % 3 != 2, "y": [rng.randint(-4, 12) / 2 for _ in range(n)],
+                   "cols": [[rng.randint(-4, 12) / 2 for _ in range(n)] for _ in range(rng.randint(1, 2))],
+                   "f": rng.choice(["mean", "quantile", "expectile"]), "level": rng.choice([0.5, 0.25]), "w": None,
+                   "feature": [float(rng.randint(0, 5)) for _ in range(n)]}
         N = 350 if tier == "quick" else 6000
         for k in range(N):
             kind = ["reliability", "murphy", "bias"][k % 3]
@@ -69,6 +78,10 @@ class C19(Prop):
             lv = rng.choice([0.5, 0.25, 0.75, 0.125])
             w = None if rng.random() < 0.5 else [rng.choice([1.0, 2.0, 0.5, 3.0]) for _ in range(n)]
             c = {"stream": kind, "y": y, "cols": cols, "f": f, "level": lv, "w": w}
+            if kind != "bias" and rng.random() < 0.15:
+                c["y2d"] = True  # observations as an (n, 1) matrix
+            if nm == 1 and rng.random() < 0.15:
+                c["pname"] = rng.choice(["glm", "model", "0"])  # a single named prediction vector (polars Series)
             if kind == "reliability":
                 if f in ("median", "quantile"):
                     c["w"] = None
@@ -117,14 +130,68 @@ class C19(Prop):
                     c["fname"] = rng.choice(["model", "model_"])  # named like the library's own model columns
             yield c
 
+    def impl_axes(self, case):
+        """ax=None / given / current / junk: which object comes back, where the artists are, what happens to the configuration"""
+        import matplotlib
+
+        matplotlib.use("Agg")
+        import matplotlib.pyplot as plt
+        from model_diagnostics import get_config
+
+        def artists(a):
+            return len(a.get_lines()) + len(a.collections) + len(a.patches) + len(a.texts)
+
+        y = np.array(case["y"])
+        P = np.array(case["cols"])
+        P = P[0] if P.shape[0] == 1 else P.T
+        fig, (given, current) = plt.subplots(1, 2)
+        plt.sca(current)
+        ax = {"none": None, "given": given, "current": current, "junk": "junk"}[case["ax"]]
+        cfg0 = get_config()
+        ok = case["args_ok"]
+        try:
+            if case["fn"] == "reliability":
+                from model_diagnostics.calibration import plot_reliability_diagram
+
+                r = plot_reliability_diagram(y, P, functional=case["f"], level=case["level"], diagram_type="reliability" if ok else "bar", ax=ax)
+            elif case["fn"] == "murphy":
+                from model_diagnostics.scoring import plot_murphy_diagram
+
+                r = plot_murphy_diagram(y, P, etas=5, functional=case["f"] if ok else "mode", level=case["level"], ax=ax)
+            else:
+                from model_diagnostics.calibration import plot_bias
+
+                r = plot_bias(y, P, feature=np.array(case["feature"]), functional=case["f"] if ok else "mode", level=case["level"],
+                              n_bins=3, bin_method="uniform", confidence_level=0, ax=ax)
+            out = {"out": "ok", "returned": "mpl:1" if r is given else "mpl:0" if r is current else "other:" + type(r).__name__}
+        except Exception as e:
+            out = {"out": exc_class(e), "returned": None, "msg": str(e)[:200]}
+        finally:
+            out["on_given"], out["on_current"] = artists(given), artists(current)
+            out["figures"] = len(plt.get_fignums())
+            out["cfg_after"] = get_config()["plot_backend"]
+            out["config_same"] = get_config() == cfg0
+            plt.close(fig)
+            for extra in plt.get_fignums():
+                plt.close(extra)
+        return out
+
     def impl(self, case):
         from model_diagnostics import get_config
 
+        if case["stream"] == "axes":
+            return self.impl_axes(case)
         y = np.array(case["y"])
         P = np.array(case["cols"])
         if case.get("pdtype"):
             P = P.astype(case["pdtype"])
         P = P[0] if P.shape[0] == 1 else P.T
+        if case.get("y2d"):
+            y = y.reshape(-1, 1)
+        if case.get("pname"):
+            import polars as pl
+
+            P = pl.Series(case["pname"], P)
         w = None if case["w"] is None else np.array(case["w"])
         plt, fig, ax = fresh_axes()
         cfg0 = get_config()
@@ -162,6 +229,12 @@ class C19(Prop):
             allv = case["y"] + [v for col in case["cols"] for v in col]
             return [float(v) for v in np.linspace(min(allv), max(allv), num=case["etas"], endpoint=True)]
         return [float(v) for v in case["etas"]]
+
+    def model_request_io(self, case, io):
+        if case["stream"] == "axes":
+            # the number of artists is a parameter of the model (Ax.plot): the model says where they are
+            return {"op": "axes", "cfg": "mpl", "ax": case["ax"], "args_ok": case["args_ok"], "k": io.get("on_given", 0) + io.get("on_current", 0)}
+        return self.model_request(case)
 
     def model_request(self, case):
         base = {"f": case["f"], "level": enc(Fraction(case["level"])), "y": enc_list(Fraction(v) for v in case["y"]),
@@ -209,7 +282,15 @@ class C19(Prop):
                     return f"model column {m}: null marker {diamonds[m]['y'] if m < len(diamonds) else None} vs model {float(dec(null))!r}"
         return None
 
+    def compare_axes(self, case, io, mo):
+        for key in ("out", "returned", "on_given", "on_current", "cfg_after"):
+            if io[key] != mo[key]:
+                return f"{case['fn']} with ax={case['ax']}, valid arguments={case['args_ok']}: {key} is {io[key]!r}, model {mo[key]!r} (implementation {io}, model {mo})"
+        return None
+
     def compare(self, case, io, mo):
+        if case["stream"] == "axes":
+            return self.compare_axes(case, io, mo)
         if case["stream"] == "bias":
             return self.compare_bias(case, io, mo)
         if "err" in io or "err" in mo:
@@ -251,7 +332,32 @@ class C19(Prop):
                         return f"curve {k}: average elementary score at eta={e}: {u!r} vs model {v!r}"
         return None
 
+    def oracle_axes(self, case, io):
+        if not io["config_same"]:
+            return "get_config() changed during the call"
+        valid = case["ax"] != "junk" and case["args_ok"]
+        if not valid:
+            if io["out"] == "ok":
+                return "an invalid call returned normally"
+            if io["on_given"] or io["on_current"]:
+                return f"a rejected call left {io['on_given'] + io['on_current']} artist(s) behind"
+            return None
+        if io["out"] != "ok":
+            return f"valid plotting call raised {io['out']}: {io.get('msg')}"
+        want = "mpl:1" if case["ax"] == "given" else "mpl:0"
+        if io["returned"] != want:
+            return f"ax={case['ax']}: returned {io['returned']}, expected {want} (1 = the axes handed in, 0 = pyplot's current axes)"
+        elsewhere = io["on_current"] if want == "mpl:1" else io["on_given"]
+        here = io["on_given"] if want == "mpl:1" else io["on_current"]
+        if elsewhere or not here:
+            return f"ax={case['ax']}: {here} artist(s) on the returned axes, {elsewhere} on the other one"
+        if io["figures"] != 1:
+            return f"the call opened {io['figures'] - 1} further figure(s)"
+        return None
+
     def oracle(self, case, io):
+        if case["stream"] == "axes":
+            return self.oracle_axes(case, io)
         if "err" in io:
             return f"valid plotting call raised {io['err']}: {io.get('msg')}"
         if not io["same_axes"]:
